@@ -1420,7 +1420,7 @@ func (c *Compiler) writeNodeReset(node *node, v string, depth int) error {
 	case typeStruct:
 		for _, ch := range node.chld {
 			nv := v + "." + ch.name
-			chPtr := ch.ptr && (ch.typ == typeStruct || ch.typ == typeMap || ch.typ == typeSlice)
+			chPtr := ch.ptr
 			if chPtr {
 				c.wl("if ", nv, "!=nil{")
 			}
